@@ -1,5 +1,5 @@
 PROP = dict(
-    coq=["Tree/TreeHarness.vo"],
+    coq=["Tree/TreeHarness.vo", "Stage/PassHarness.vo"],
     legs=[
         dict(driver="tree", quick=900, thorough=20000, shard=60,
              monitors=["links_symmetric_ids_unique", "wellformed_at_stage_boundaries", "dedupe_unique",
@@ -7,6 +7,12 @@ PROP = dict(
         dict(driver="treex", quick=12696, thorough=602520, shard=800, search_mult=3,
              monitors=["links_symmetric_ids_unique", "wellformed_at_stage_boundaries", "dedupe_unique",
                        "dedupe_keeps_urls", "complete_iff_no_pending"]),
+        # "through every sequence of operations the STAGES perform on a seed's tree": the operation sequences above are issued by the
+        # driver; here the real preprocess / postprocess / finisher issue them (driver of C01, scripted archiver), and the tree is
+        # judged at every stage boundary: consistency check, unique ids, complete-iff-nothing-pending, completion reached
+        dict(driver="pass", corpus_from="C01", quick=300, thorough=10000, shard=50, noshrink=True, only_monitors=[0, 1, 2],
+             monitors=["completion_reached_exactly_once", "wellformed_at_stage_boundaries", "finish_iff_tree_done",
+                       "(C01)", "(C06)", "(C06)", "(C01)", "(C01)", "(C01)"]),
     ],
     partial="childrenMu locking is not modelled (a seed is owned by one goroutine at a time except inside archive(), see C01); "
             "re-parenting an existing child through AddChild is not modelled (the stages only add new items).",
